@@ -28,4 +28,5 @@ size_t ledger_live_count();
 std::vector<LedgerEvent> ledger_take_events();
 uint64_t ledger_lib_allocs();                           // counter
 uint64_t ledger_lib_frees();
+uint64_t ledger_refused_huge();                         // allocations above the simulated machine's 1 GiB limit
 std::string symbolize(const void *addr);
